@@ -113,6 +113,15 @@ pub fn check_trace(events: &[Event], train_tags: &[u64], val_tags: Option<&[u64]
     Ok(())
 }
 
+/// The same optimizer configuration with half the learning rate.
+fn halved(o: &OptCfg) -> OptCfg {
+    let mut o = o.clone();
+    match &mut o {
+        OptCfg::Sgd { lr, .. } | OptCfg::Sgdm { lr, .. } | OptCfg::Adam { lr, .. } | OptCfg::AdamW { lr, .. } | OptCfg::Rmsprop { lr, .. } => *lr *= 0.5,
+    }
+    o
+}
+
 /// Equivalent runs on architectures the twin trainer does not model (feedback blocks with and
 /// without bias, skip and loop connections): with plain SGD (stateless; the step number is not
 /// used) one learn() call over G groups and E epochs must leave exactly the weights of E*G
@@ -763,12 +772,18 @@ impl Monitor for C04 {
         net.set_optimizer(opt.build());
         let (xr, tr) = (train.x_refs(), train.t_refs());
         let (vxr, vtr) = (val.x_refs(), val.t_refs());
+        // every fourth case asks for progress lines every 1 / 2 / 3 / 5 epochs (the console output
+        // goes to the monitor's log; what learn() does and returns must not depend on it)
+        let print: Option<i32> = if idx % 4 == 2 { Some([1, 2, 3, 5][((idx / 4) % 4) as usize]) } else { None };
         let (res, events) = in_cached_pool(threads, || {
             guard(|| {
                 let validation: Option<(&Vec<&Tensor>, &Vec<&Tensor>, i32)> = if with_val { Some((&vxr, &vtr, tolerance)) } else { None };
-                net.learn(&xr, &tr, validation, batch, epochs as i32, None)
+                net.learn(&xr, &tr, validation, batch, epochs as i32, print)
             })
         });
+        if print.is_some() {
+            out.count("runs_with_a_print_frequency", 1);
+        }
         let (tl, vl, _va) = match res {
             Ok(r) => r,
             Err(m) => {
@@ -874,6 +889,9 @@ impl Monitor for C04 {
         // `calls`: the learn() calls made on the network so far, each (samples used = the first m,
         // batch size, epochs): weights AND optimizer state carry over from call to call, the step
         // number restarts at 1 with every call (it is the epoch index of that call)
+        // `opt_second`: when set, a new optimizer (same kind, learning rate halved) is installed with
+        // set_optimizer before the second call - the twin then starts that call from fresh state
+        let opt_second: std::cell::RefCell<Option<OptCfg>> = std::cell::RefCell::new(None);
         let run_twin = |single: bool, calls: &[(usize, usize, usize)]| -> Result<(Vec<Vec<f64>>, Vec<Vec<f64>>, Vec<f64>), String> {
             let mut w: Vec<Vec<f64>> = params.iter().map(|p| p.flat().iter().map(|v| *v as f64).collect()).collect();
             let mut st: Vec<Vec<St<f64>>> = w.iter().map(|l| vec![St::default(); l.len()]).collect();
@@ -884,6 +902,14 @@ impl Monitor for C04 {
             guard(|| {
               for (call, (n, batch, epochs)) in calls.iter().cloned().enumerate() {
                 twin_loss.clear();
+                let mut opt = opt.clone();
+                if call == 1 {
+                    if let Some(o) = opt_second.borrow().clone() {
+                        opt = o;
+                        st = w.iter().map(|l| vec![St::default(); l.len()]).collect();
+                        st32 = w.iter().map(|l| vec![St::default(); l.len()]).collect();
+                    }
+                }
                 for epoch in 1..=epochs {
                     let mut loss_epoch = 0.0f64;
                     let mut groups = 0usize;
@@ -1015,6 +1041,15 @@ impl Monitor for C04 {
             let m = rng.range(1, n);
             let b2 = if rng.bool() { batch } else { rng.range(1, m + 1) };
             let (xr2, tr2): (Vec<&Tensor>, Vec<&Tensor>) = (xr[..m].to_vec(), tr[..m].to_vec());
+            // every second of these cases: a freshly created optimizer of the same kind (learning
+            // rate halved) is installed between the calls; nothing of the replaced optimizer's
+            // state may survive in it
+            if idx % 6 == 3 {
+                let o2 = halved(&opt);
+                net.set_optimizer(o2.build());
+                *opt_second.borrow_mut() = Some(o2);
+                out.count("second_learn_calls_after_installing_a_new_optimizer", 1);
+            }
             let (res2, events2) = in_cached_pool(threads, || guard(|| net.learn(&xr2, &tr2, None, b2, e2 as i32, None)));
             match res2 {
                 Ok((tl2, _, _)) => {
@@ -1041,7 +1076,7 @@ impl Monitor for C04 {
                                     if (lib2[k] as f64 - tw[k]).abs() > tol {
                                         out.viol(
                                             &format!("train:weights:second-call:{}", opt.name()),
-                                            format!("after a second learn() call (first {} samples, batch {}, {} epochs) parameter {} is {:e}; the twin, continuing with the optimizer state the first call left, gives {:e} (tolerance {:e}) [{}]", m, b2, e2, k, lib2[k], tw[k], tol, desc),
+                                            format!("after a second learn() call (first {} samples, batch {}, {} epochs{}) parameter {} is {:e}; the twin, {}, gives {:e} (tolerance {:e}) [{}]", m, b2, e2, if opt_second.borrow().is_some() { ", a new optimizer with half the learning rate installed before it" } else { "" }, k, lib2[k], if opt_second.borrow().is_some() { "starting the new optimizer from fresh state" } else { "continuing with the optimizer state the first call left" }, tw[k], tol, desc),
                                             detail(),
                                         );
                                         break;
